@@ -321,4 +321,33 @@ theorem injective_of_lossless {G S : Type} (write : G → S) (read : S → Optio
   cases hr₁
   exact trans _ _ _ (symm _ _ i₁) i₂
 
+/-! ## 7. regression of the fixed finding `C02/ring-diene-cis-trans` (chython 891fb3c)
+
+`C/C1=C/C=C/CCCCCC1` and `C/C1=C\C=C\CCCCCC1` (1-methylcyclodeca-1,3-diene, 1E/1Z) differ only in the label of the bond 2=3.
+In the canonical traversal that bond is the ring-closure bond and atom 3 is reached from the other double bond first:
+before the fix `__ct_map` marked the substituents of atom 2 with the "left entry" default and took the mark of 3–4 from the
+diene 4=5, so both molecules (same weights, same tables) were written `C/C=1/CCCCCC/C=C/C=1`.  With the check-and-turn-over
+pass (`ctRepair`) the model, like the code, writes them differently. -/
+
+def dieneInts (s23 : Int) : List Int :=
+  [11, 1, 6, 0, 0, 0, 3, -1, 1, 2, 1, -1, 2, 6, 0, 0, 0, 0, -1, 3, 1, 1, -1, 3, 2, s23, 11, 1, -1,
+   3, 6, 0, 0, 0, 1, -1, 2, 2, 2, s23, 4, 1, -1, 4, 6, 0, 0, 0, 1, -1, 2, 3, 1, -1, 5, 2, 0, 5, 6, 0, 0, 0, 1, -1, 2, 4, 2, 0, 6, 1, -1,
+   6, 6, 0, 0, 0, 2, -1, 2, 5, 1, -1, 7, 1, -1, 7, 6, 0, 0, 0, 2, -1, 2, 6, 1, -1, 8, 1, -1, 8, 6, 0, 0, 0, 2, -1, 2, 7, 1, -1, 9, 1, -1,
+   9, 6, 0, 0, 0, 2, -1, 2, 8, 1, -1, 10, 1, -1, 10, 6, 0, 0, 0, 2, -1, 2, 9, 1, -1, 11, 1, -1, 11, 6, 0, 0, 0, 2, -1, 2, 10, 1, -1, 2, 1, -1]
+
+def dieneMol (s23 : Int) : Mol := match Mol.parse (dieneInts s23) with | some (m, _) => m | none => Mol.empty
+
+def dieneEnv : Env :=
+  { weights := [(1, 1), (2, 10), (3, 5), (4, 6), (5, 2), (6, 9), (7, 3), (8, 7), (9, 8), (10, 11), (11, 4)],
+    setOrders := [[1, 2, 3, 4, 5, 6, 7, 8, 9, 10, 11]],
+    front := [((2, 1), [11, 3]), ((2, 3), [11, 1]), ((2, 11), [1, 3])], draws := [], tetra := [],
+    cumul := [([2, 3], { n0 := 1, n1 := 4, n2 := some 11, n3 := none }), ([4, 5], { n0 := 3, n1 := 6, n2 := none, n3 := none })] }
+
+def textOf (m : Mol) : Option Str := match write m dieneEnv {} with | .ok (t, _) => some t | .error _ => none
+
+/-- the two stereoisomers are written differently (canonical style), and both are written -/
+example : textOf (dieneMol 0) ≠ textOf (dieneMol 1) ∧ (textOf (dieneMol 0)).isSome = true ∧ (textOf (dieneMol 1)).isSome = true := by
+  decide +kernel
+
+
 end ChythonModel.Props.C02
